@@ -319,7 +319,6 @@ def check_c19(prog, rep, tier, cfg):
         fl = iv.calls_to("encoding_rs::Encoding::for_label")
         rep.check(len(inv) == 1 and len(fl) == 1, R, "unknown-encoding-is-error", "an unknown encoding label is not rejected", instance={"for_label": len(fl), "invalid_value": len(inv)})
         # the decision table of the visitor: `native` only for the word itself, a named encoding only for what for_label() knows, else an error
-        from table import Table, TooComplex, render
         try:
             tb = Table(prog, iv, inline=1, opaque=("for_label", "eq_ignore_ascii_case", "invalid_value"))
             rows = tb.rows
